@@ -135,6 +135,11 @@ impl<'a> Value<'a> {
     /// Strings use zero-cost clone. Numbers/bools/null are trivial copies.
     fn clone_into(&self, arena: &'a Arena) -> Self {
         match self {
+            // Owned strings are copied: a zero-copy alias of a pool slot (or of a frame
+            // allocation) can outlive the storage it points into.
+            Value::Str(ArenaCow::Owned(s)) => {
+                Value::Str(ArenaCow::Owned(ArenaString::from_str(arena, s.as_str())))
+            }
             Value::Str(cow) => Value::Str(cow.clone()),
             Value::Number(n) => Value::Number(*n),
             Value::Bool(b) => Value::Bool(*b),
